@@ -154,3 +154,17 @@ package storer
 //gvc:  results commits err
 //gvc:  ensures got: err == nil ==> len(commits) == s.#shn
 //gvc:end
+
+// CheckAndSetReference: SetReference made conditional on the stored value,
+// as one step of the storage (trusted: the implementations are verified
+// against their own contracts for C16 / C19, not against this one).
+//gvc:func ReferenceStorer.CheckAndSetReference
+//gvc:  trusted
+//gvc:  params s ref old
+//gvc:  results err
+//gvc:  requires refnn: ref != nil
+//gvc:  modifies s.#refs
+//gvc:  ensures set: err == nil ==> s.#refs == store(old(s.#refs), strid(ref.n), ref)
+//gvc:  ensures was: err == nil && old != nil ==> old(s.#refs)[strid(old.n)] != 0 && forall(k, 0, 32, field(old(s.#refs)[strid(old.n)], "plumbing.Reference.h").hash[k] == old.h.hash[k])
+//gvc:  ensures unchanged: err != nil ==> s.#refs == old(s.#refs)
+//gvc:end
